@@ -105,8 +105,13 @@ def check(ctx, rep, P, walked):
         counts = {}
         for kind, line in calls:
             counts[kind] = counts.get(kind, 0) + 1
+        fused = {}
+        for (froot, fkind, cid) in sym.FUSED_ADAPTORS:
+            if froot == fid or froot in [h for h in nh if fid in fx.attributed(h)]:
+                fused.setdefault(fkind, set()).add(cid)
         for kind, n in sorted(counts.items()):
             n_sites += n
+            n -= len(fused.get(kind, ()))       # modelled element by element by the engine (iterator fusion)
             lim = allowed.get(kind, {}).get("count", 0) if isinstance(allowed.get(kind), dict) else allowed.get(kind, 0)
             lines = [l for k, l in calls if k == kind]
             f = fx.fns[fid]
